@@ -14,10 +14,10 @@ WIDTH = {A32: 32, T16: 16, T32: 32}
 
 class Row:
     __slots__ = ("cls", "iset", "pat", "mask", "value", "fields", "sbz", "sbo", "guard", "operands", "unpredictable",
-                 "undefined", "sem", "group", "notimpl", "width", "cond")
+                 "undefined", "sem", "group", "notimpl", "width", "cond", "alt", "nocompare")
 
     def __init__(self, cls, iset, pat, operands=None, sem=None, group=None, guard=None, unpredictable=None,
-                 undefined=None, notimpl=False):
+                 undefined=None, notimpl=False, alt=(), nocompare=()):
         pat = pat.replace(" ", "")
         w = WIDTH[iset]
         assert len(pat) == w, (cls, len(pat))
@@ -46,6 +46,8 @@ class Row:
         self.sem = sem
         self.group = group
         self.notimpl = notimpl
+        self.nocompare = tuple(nocompare)   # operand attributes the model needs but decode checks do not compare
+        self.alt = tuple(alt)      # other classes an implementation may legitimately choose where the manual is ambiguous
         self.cond = "c" in fields and iset == A32
 
     def matches(self, w):
@@ -53,11 +55,16 @@ class Row:
 
     def extract(self, w):
         f = {}
-        for k, pos in self.fields.items():
-            v = 0
-            for b in pos:
-                v = (v << 1) | ((w >> b) & 1)
-            f[k] = v
+        if isinstance(w, int):
+            for k, pos in self.fields.items():
+                v = 0
+                for b in pos:
+                    v = (v << 1) | ((w >> b) & 1)
+                f[k] = v
+        else:
+            from ..lazyword import field
+            for k, pos in self.fields.items():
+                f[k] = field(w, pos)
         return f
 
     def should_be_ok(self, w):
@@ -88,8 +95,11 @@ class Table:
 
     def lookup(self, iset, w):
         """(row, fields) of the first row whose fixed bits match and whose guard accepts; None if unallocated."""
+        uncond = iset == A32 and (w >> 28) == 0xF
         for r in self.rows[iset]:
             if (w & r.mask) == r.value:
+                if r.cond and uncond:
+                    continue          # cond = 1111 is the unconditional-instruction space
                 f = r.extract(w)
                 if r.guard is None or r.guard(f):
                     return r, f
